@@ -251,7 +251,7 @@ def run_parse_rules(res, ast):
                     allm = calls_on(body, vec, mut)
                     ino = calls_on(arms["["]["body"], vec, mut) if "[" in arms else []
                     inc = calls_on(arms["]"]["body"], vec, mut) if "]" in arms else []
-                    tail = [x for x in allm if x["sp"][0] > main["sp"][2]]
+                    tail = [x for x in allm if before(main, x)]
                     names_o = [x["method"] for x in ino]
                     names_c = [x["method"] for x in inc]
                     other = [x for x in allm if x not in ino and x not in inc and x not in tail]
@@ -302,15 +302,15 @@ def run_parse_rules(res, ast):
                     res.check(okf, "ERR-POS", f"{IR}|parse|not-opened", where(IR, arms["]"], "parse"),
                               f"`]` must first test whether the position stack is empty (is_empty(), or pop() giving None) and return LoopNotOpened at position `{ivar}`")
                     pops = [x for x in walk_t(arms["]"]["body"], "MethodCall") if x["method"] == "pop" and path_name(x["receiver"]) in (posn, stkn)]
-                    later = [x for x in pops if first is not None and x["sp"][0] > first["sp"][2]]
-                    intest = [x for x in pops if first is not None and first["sp"][0] <= x["sp"][0] <= first["sp"][2]]
+                    later = [x for x in pops if first is not None and before(first, x)]
+                    intest = [x for x in pops if first is not None and inside(x, first)]
                     okp = first is not None and len(pops) == 2 and ((len(later) == 2 and not pop_in_test) or
                                                                     (pop_in_test and len(later) == 1 and path_name(later[0]["receiver"]) == stkn and len(intest) == 1 and path_name(intest[0]["receiver"]) == posn))
                     res.check(okp, "STACK-PAIR", f"{IR}|parse|close-after-test", where(IR, arms["]"], "parse"), "the block stack must be popped only after the emptiness test, and each stack exactly once")
             # tail: LoopNotClosed at the innermost unclosed `[` (the top of the position stack)
             posn_ = posn if main is not None and "posn" in dir() else "positions"
             stkn_ = stkn if main is not None and "stkn" in dir() else "stack"
-            tail_ifs = [s["expr"] for s in body["stmts"] if s["t"] == "ExprStmt" and s["expr"]["t"] == "If" and s["sp"][0] > main["sp"][2]]
+            tail_ifs = [s["expr"] for s in body["stmts"] if s["t"] == "ExprStmt" and s["expr"]["t"] == "If" and before(main, s)]
             okt, why_t = False, "no test for unclosed loops after the scan"
             top_exprs = (f"*{posn_}.last().unwrap()", f"{posn_}[{posn_}.len() - 1]", f"{posn_}.pop().unwrap()", f"{posn_}.last().copied().unwrap()", f"*{posn_}.last().expect(__e_m)")
             for i in tail_ifs:
